@@ -28,10 +28,10 @@ import time
 
 import asyncssh
 from asyncssh.channel import SSHClientChannel
-from asyncssh.packet import Boolean, String, UInt32
+from asyncssh.packet import Boolean, Byte, String, UInt32
 from asyncssh.public_key import SSHLocalKeyPair
 
-from harness import tlc
+from harness import rawpeer, tlc
 from harness.vloop import new_loop, close_loop, Deadlock
 
 PERMS = ['pty', 'agent-forwarding', 'X11-forwarding', 'port-forwarding',
@@ -151,6 +151,8 @@ def run_case(case, ops=PERM_OPS, requests=(), dests=(), client_env=None):
     w = {'accepted': False, 'sconn': None}
     method = case.get('method', 'publickey')
     user = case.get('user', USER)
+    steps = case.get('steps')           # request sequence from a raw client
+    files = None                        # user -> SSHAuthorizedKeys
     k = K()
     user_pub = k['user'].convert_to_public()
     cas = {n: k[n].convert_to_public() for n in ('ca', 'otherca')}
@@ -185,6 +187,9 @@ def run_case(case, ops=PERM_OPS, requests=(), dests=(), client_env=None):
             w['sconn'] = conn
 
         def begin_auth(self, username):
+            if files is not None:
+                # per-user authorized keys, as an application does it
+                w['sconn'].set_authorized_keys(files.get(username))
             return True
 
         def auth_completed(self):
@@ -192,10 +197,10 @@ def run_case(case, ops=PERM_OPS, requests=(), dests=(), client_env=None):
             w['granted'] = w['sconn'].get_extra_info('username')
 
         def password_auth_supported(self):
-            return method == 'password'
+            return method == 'password' or steps is not None
 
         def validate_password(self, username, password):
-            return username == user and password == 'pw-' + user
+            return password == 'pw-' + username
 
         def public_key_auth_supported(self):
             return True
@@ -234,15 +239,21 @@ def run_case(case, ops=PERM_OPS, requests=(), dests=(), client_env=None):
     out = {'accepted': False, 'server_accepted': False, 'granted': None,
            'ops': {}, 'started': {}, 'dests': {}, 'errors': [], 'cb': [],
            'loop_exceptions': []}
-    if lines:
-        try:
+    try:
+        if lines:
             skw['authorized_client_keys'] = asyncssh.import_authorized_keys(
                 '\n'.join(lines) + '\n')
-        except Exception as exc:        # pylint: disable=broad-except
-            out['errors'].append(f'import_authorized_keys: '
-                                 f'{type(exc).__name__}: {exc}')
-            close_loop(loop)
-            return out
+        if case.get('files') is not None:
+            files = {}
+            for u, ents in case['files'].items():
+                if ents:
+                    files[u] = asyncssh.import_authorized_keys('\n'.join(
+                        entry_line(e, e['key']) for e in ents) + '\n')
+    except Exception as exc:            # pylint: disable=broad-except
+        out['errors'].append(f'import_authorized_keys: '
+                             f'{type(exc).__name__}: {exc}')
+        close_loop(loop)
+        return out
     ckw = dict(client_keys=None, agent_path=None)
     if method == 'password':
         ckw['password'] = 'pw-' + user
@@ -311,18 +322,79 @@ def run_case(case, ops=PERM_OPS, requests=(), dests=(), client_env=None):
         seen = [e for e in log[mark:] if e[0] == op.replace('-api', '')]
         return bool(seen), reply
 
+    def keypair(cred):
+        return SSHLocalKeyPair(k['user'], None,
+                               None if cred is None else make_cert(cred),
+                               None)
+
+    def step_body(sid, st):
+        if st['kind'] in ('password', 'badpw'):
+            pw = 'pw-' + st['user'] + ('' if st['kind'] == 'password'
+                                       else '-wrong')
+            return rawpeer.password_request(st['user'], pw)
+        kp = keypair(st['cred'])
+        signed = st['kind'] != 'query'
+        body = rawpeer.userauth_request(
+            st['user'], b'publickey', Boolean(signed), String(kp.algorithm),
+            String(kp.public_data))
+        if signed:
+            if st['kind'] == 'badsig':
+                sid = sid[:-1] + bytes([sid[-1] ^ 1])
+            body += String(kp.sign(String(sid) + Byte(50) + body))
+        return body
+
+    async def raw_steps():
+        """The request sequence, sent by a raw peer (own user name and
+        credential per request, query / signed / bad signature); after
+        USERAUTH_SUCCESS the connection object goes back to being an
+        ordinary asyncssh client connection for the probes."""
+        rkw = {'local_addr': (case['addr'], 0)} if case.get('addr') else {}
+        raw = await rawpeer.raw_connect(*SERVER_ADDR, **rkw)
+        w['raw'] = raw
+        out['replies'] = []
+        for st in steps:
+            fut = loop.create_future()
+
+            def on_packet(t, _payload, fut=fut):
+                if t in (51, 52, 60) and not fut.done():
+                    fut.set_result(t)
+            raw.on_packet = on_packet
+            raw.raw_send(50, step_body(raw._session_id, st))
+            t = await fut
+            out['replies'].append({51: 'fail', 52: 'success',
+                                   60: 'pk_ok'}[t])
+            if t == 52:
+                break
+        raw.on_packet = None
+        out['replies'] += ['skipped'] * (len(steps) - len(out['replies']))
+        if out['replies'].count('success') == 0:
+            raw.abort()
+            return None
+        raw.take()
+        raw.raw = False
+        raw._channels = raw._saved_channels
+        raw._auth = None
+        return raw
+
     async def go():
         acc = await asyncssh.listen(
             *SERVER_ADDR, server_factory=Srv, server_host_keys=[k['host']],
             x11_forwarding=True, x11_auth_path=os.path.join(tmp, 'Xauthority'),
             encryption_algs=[CIPHER], compression_algs=["none"],
             **skw)
-        try:
-            conn = await asyncssh.connect(*SERVER_ADDR, known_hosts=None,
-                                          config=None, username=user, **ckw)
-        except asyncssh.PermissionDenied:
-            acc.close()
-            return
+        if steps is not None:
+            conn = await raw_steps()
+            if conn is None:
+                acc.close()
+                return
+        else:
+            try:
+                conn = await asyncssh.connect(
+                    *SERVER_ADDR, known_hosts=None, config=None,
+                    username=user, **ckw)
+            except asyncssh.PermissionDenied:
+                acc.close()
+                return
         out['accepted'] = True
         raw = [o for o in ops if o in RAW_OPS]
         if raw:
@@ -388,7 +460,7 @@ def run_case(case, ops=PERM_OPS, requests=(), dests=(), client_env=None):
     except Deadlock:
         out['errors'].append('hung')
     except Exception as exc:            # pylint: disable=broad-except
-        out['errors'].append(f'{type(exc).__name__}: {exc}')
+        import traceback; out["errors"].append(traceback.format_exc())
     finally:
         tempfile.tempdir = old_tmp
     out['granted'] = w.get('granted')
@@ -431,25 +503,60 @@ def _plist(pl):
     return ','.join(('!' if i['neg'] else '') + i['pat'] for i in pl)
 
 
+def _entry(e):
+    return dict(
+        ca=e['ca'], key=e['key'], flags=list(e['flags']),
+        cmd=None if e['cmd'] == '-' else cmd_text(e['cmd']),
+        open=sorted(f'{d["h"]}:{d["p"]}' for d in _set(e['open'])),
+        frm=[_plist(pl) for pl in e['frm']],
+        princ=[_plist(pl) for pl in e['princ']],
+        env=[] if e['env'] == '-' else ['N=' + env_text(e['env'])])
+
+
+def _cert(c):
+    if not c['present']:
+        return None
+    return dict(ext=sorted(_set(c['ext'])),
+                force=None if c['force'] == '-' else cmd_text(c['force']),
+                src=sorted(_set(c['src'])),
+                principals=sorted(_set(c['principals'])),
+                valid=c['valid'], ctype=c['ctype'], ca=c['ca'])
+
+
+HIST_DESTS = ['h1:80', 'h2:22']
+
+
+def to_hist_case(h, pool):
+    """Row of specs/Auth/RestrictSeq.tla (parsed) + the printed pools ->
+    (case, keyword arguments)."""
+    files, certs = pool
+    case = dict(
+        files={'alice': [_entry(e) for e in files[h['fa']]],
+               'bob': [_entry(e) for e in files[h['fb']]]},
+        cb_key=h['cbkey'], cb_ca=h['cbca'], addr='10.0.0.5',
+        steps=[dict(kind=st['kind'], user=st['user'], name=st['cred'],
+                    cred=None if st['cred'] in ('-', 'key')
+                    else _cert(certs[st['cred']])) for st in h['steps']],
+        names=dict(fa=h['fa'], fb=h['fb']))
+    kw = dict(ops=[o for o in PERM_OPS if o != 'direct-tcpip'],
+              dests=HIST_DESTS,
+              requests=[req_name('exec', 'rc'), 'shell', 'subsystem:sub'])
+    return case, kw
+
+
+def describe_hist(case):
+    st = ' ; '.join(f'{s["kind"]}({s["user"]}'
+                    f'{"" if s["name"] == "-" else "," + s["name"]})'
+                    for s in case['steps'])
+    return (f'alice:{case["names"]["fa"]} bob:{case["names"]["fb"]}'
+            f'{" cb_key" if case["cb_key"] else ""}'
+            f'{" cb_ca" if case["cb_ca"] else ""} | {st}')
+
+
 def to_case(cred):
     """TLC row (parsed record) -> (case for run_case, keyword arguments)."""
-    entries = []
-    for e in cred['entries']:
-        entries.append(dict(
-            ca=e['ca'], key=e['key'], flags=list(e['flags']),
-            cmd=None if e['cmd'] == '-' else cmd_text(e['cmd']),
-            open=sorted(f'{d["h"]}:{d["p"]}' for d in _set(e['open'])),
-            frm=[_plist(pl) for pl in e['frm']],
-            princ=[_plist(pl) for pl in e['princ']],
-            env=[] if e['env'] == '-' else ['N=' + env_text(e['env'])]))
-    c = cred['cert']
-    cert = None
-    if c['present']:
-        cert = dict(ext=sorted(_set(c['ext'])),
-                    force=None if c['force'] == '-' else cmd_text(c['force']),
-                    src=sorted(_set(c['src'])),
-                    principals=sorted(_set(c['principals'])),
-                    valid=c['valid'], ctype=c['ctype'], ca=c['ca'])
+    entries = [_entry(e) for e in cred['entries']]
+    cert = _cert(cred['cert'])
     case = dict(method=cred['method'], entries=entries, cert=cert,
                 cb_key=cred['cbkey'], cb_ca=cred['cbca'], user=cred['user'],
                 addr=cred['addr'])
